@@ -260,7 +260,27 @@ bool HistSim::realSetValue(JsonVariant dst, const Val& v, size_t ix, size_t arg)
   uint64_t h = mix64(opt.srcSeed ^ mix64(ix * 977 + arg * 13 + 7));
   switch (v.k) {
     case K::Null:
-      return dst.set(nullptr);
+      // null has many spellings: nullptr, a null string of either kind, an unbound handle of every type
+      switch ((h >> 8) % 12) {
+        case 0:
+          return dst.set(static_cast<const char*>(nullptr));
+        case 1:
+          return dst.set(JsonString());
+        case 2:
+          return dst.set(JsonVariant());
+        case 3:
+          return dst.set(JsonVariantConst());
+        case 4:
+          return dst.set(JsonArray());
+        case 5:
+          return dst.set(JsonArrayConst());
+        case 6:
+          return dst.set(JsonObject());
+        case 7:
+          return dst.set(JsonObjectConst());
+        default:
+          return dst.set(nullptr);
+      }
     case K::Bool:
       return dst.set(v.b);
     case K::Int:
@@ -494,6 +514,26 @@ void HistSim::checkDoc(int d, const char* when) {
     violate("C04:walk-mismatch", "document size()/nesting() differ from the model");
   if (ds.doc->isNull() != (ds.model.k == K::Null))
     violate("C04:walk-mismatch", "document isNull() differs from the model");
+  // the read API of a const document, and the implicit conversions of a document to a reference
+  const JsonDocument& cd = *ds.doc;
+  JsonVariantConst viaConv = cd;
+  JsonVariant viaConvMut = *ds.doc;
+  if (viaConv.size() != ds.model.size() || viaConvMut.size() != ds.model.size() || viaConv.isNull() != (ds.model.k == K::Null) ||
+      cd.size() != ds.model.size() || cd.nesting() != ds.model.nesting() || cd.is<JsonArrayConst>() != (ds.model.k == K::Arr) ||
+      cd.is<JsonObjectConst>() != (ds.model.k == K::Obj))
+    violate("C04:walk-mismatch", "const document / document converted to a reference disagree with the model");
+  if (ds.model.k == K::Arr && !ds.model.a.empty()) {
+    size_t last = ds.model.a.size() - 1;
+    JsonVariantConst e = cd[last];
+    if (e.isNull() != (ds.model.a[last].k == K::Null) || e.size() != ds.model.a[last].size() || !cd[last + 1].isNull())
+      violate("C04:walk-mismatch", "const document [index] disagrees with the model");
+  } else if (ds.model.k == K::Obj && !ds.model.o.empty()) {
+    const std::string& key = ds.model.o.back().first;
+    const Val& want = ds.model.o[size_t(ds.model.memberIndex(key))].second;
+    JsonVariantConst e = cd[key];
+    if (e.isNull() != (want.k == K::Null) || e.size() != want.size() || e.is<const char*>() != (want.k == K::Str))
+      violate("C04:walk-mismatch", "const document [key] disagrees with the model");
+  }
 }
 
 void HistSim::checkRefs() {
@@ -512,7 +552,12 @@ void HistSim::checkRefs() {
                                          ") no longer designates its value: " + firstDiff(*n, e) +
                                          " [model | through the reference]");
     // the accessors of the typed handle itself
-    if (r.view == 'a') {
+    if (r.view == 'v') {
+      if (r.v.is<JsonArray>() != (n->k == K::Arr) || r.v.is<JsonObject>() != (n->k == K::Obj) || !r.v.is<JsonVariant>() ||
+          !r.v.is<JsonVariantConst>() || r.v.is<std::nullptr_t>() != (n->k == K::Null) || r.v.isNull() != (n->k == K::Null) ||
+          r.v.isUnbound() || r.v.as<JsonArray>().isNull() != (n->k != K::Arr) || r.v.as<JsonObject>().isNull() != (n->k != K::Obj))
+        violate("C04:stale-reference", "JsonVariant handle: is<JsonArray/JsonObject/JsonVariant/nullptr_t>() differ from the model");
+    } else if (r.view == 'a') {
       if (r.a.isNull() != (n->k != K::Arr) || bool(r.a) != (n->k == K::Arr) || r.a.size() != (n->k == K::Arr ? n->a.size() : 0) ||
           r.a.nesting() != (n->k == K::Arr ? n->nesting() : 0))
         violate("C04:stale-reference", "JsonArray handle: isNull()/bool/size()/nesting() differ from the model");
